@@ -66,6 +66,8 @@ def run(ctx: Ctx):
     r10_4(ctx)
     r10_5(ctx)
     r10_6(ctx)
+    from ..util import persistent_state
+    persistent_state(ctx, "R10.7", [f_ for f_ in (ctx.repo.func(q_, required=False) for q_ in ('remove_hydrogens', 'guess_residue_restrains', 'guess_protein_restrains', '_split_list', 'Manager.parse_restrictions', 'Manager._validate_index')) if f_ is not None], "preparing the restraints")
 
 
 def _is_reversal(comp: ast.AST) -> bool:
